@@ -123,7 +123,11 @@ func discharge(fvs []*FuncVC, cfg RunConfig) {
 			for j := range ch {
 				q := j.fv.buildQuery(j.o)
 				j.o.Query = q
-				res, err := solve(q, cfg.TimeoutS, cfg.All, !usesZ3Only(q))
+				tmo := cfg.TimeoutS
+				if j.o.Probe {
+					tmo = 3 // a vacuity probe that is not answered quickly is inconclusive, not an alarm
+				}
+				res, err := solve(q, tmo, cfg.All && !j.o.Probe, !usesZ3Only(q))
 				if res.Verdict == VUnknown && !j.o.Probe {
 					// one retry with a larger budget
 					res, err = solve(q, cfg.TimeoutS*3, cfg.All, !usesZ3Only(q))
